@@ -449,7 +449,7 @@ def split_in_two_random(value: int) -> Tuple[int, int]:
 
 
 def gen_combine_terms_in_place(
-    min_terms: int = 16, max_terms: int = 26, easy: bool = True, powers: bool = False
+    min_terms: int = 16, max_terms: int = 25, easy: bool = True, powers: bool = False
 ) -> Tuple[str, int]:
     """Generate a problem that puts one pair of like terms next to each other
     somewhere inside a large tree of unlike terms.
